@@ -667,5 +667,416 @@ fn c05_l4_check_comparison_conservative() {
     std::mem::forget(lit);
 }
 
+// ---------------------------------------------------------------- L5 / L6 combinators (inductive step)
+// The bodies of row_group_might_match / row_group_definitely_matches / prune_row_groups
+// are compiled verbatim inside `comb`, where the names they call resolve to CONTRACT
+// ORACLES: a call returns any value the callee's contract allows. Ghost: one arbitrary
+// row rho consistent with the statistics; every sub-expression has an arbitrary 3VL truth
+// value at rho (leaves are tagged literals). Contracts (the induction hypothesis):
+//   might(e)      : tv(e) == T  ==>  result            (proved for leaves by L1-L4)
+//   definitely(e) : result      ==>  tv(e) == T        (proved for leaves by L3)
+// Each harness proves the same contract for one combinator case given the contracts of
+// its operands, for ALL truth values: structural induction over predicates of any depth.
+pub mod comb {
+    use super::super::{BinaryOp, Expr, ScalarValue, UnaryOp};
+    pub struct KRg;
+    pub struct KSchema;
+    pub struct KMeta {
+        pub n: usize,
+    }
+    static KRG: KRg = KRg;
+    impl KMeta {
+        pub fn num_row_groups(&self) -> usize {
+            self.n
+        }
+        pub fn row_group(&self, i: usize) -> &KRg {
+            assert!(i < self.n);
+            unsafe { CUR_RG = i };
+            &KRG
+        }
+    }
+    pub const T: u8 = 1;
+    pub const F: u8 = 0;
+    pub const N: u8 = 2;
+    pub static mut TV_LEAF: [u8; 3] = [0; 3];
+    /// truth of `leaf a  op  leaf b` for op in {Eq, GtEq, LtEq, other comparison}
+    pub static mut TV_CMP: [[[u8; 4]; 3]; 3] = [[[0; 4]; 3]; 3];
+    pub static mut CUR_RG: usize = 0;
+    pub static mut RG_TRUTH: [u8; 3] = [0; 3];
+
+    pub fn and3(a: u8, b: u8) -> u8 {
+        if a == F || b == F { F } else if a == T && b == T { T } else { N }
+    }
+    pub fn or3(a: u8, b: u8) -> u8 {
+        if a == T || b == T { T } else if a == F && b == F { F } else { N }
+    }
+    pub fn not3(a: u8) -> u8 {
+        if a == T { F } else if a == F { T } else { N }
+    }
+    fn tag(e: &Expr) -> usize {
+        match e {
+            Expr::Literal(ScalarValue::Int64(t)) if *t >= 0 && *t < 3 => *t as usize,
+            _ => panic!("VERIF oracle: operand shape outside the harness (unsupported)"),
+        }
+    }
+    fn op_ix(op: &BinaryOp) -> usize {
+        match op {
+            BinaryOp::Eq => 0,
+            BinaryOp::GtEq => 1,
+            BinaryOp::LtEq => 2,
+            _ => 3,
+        }
+    }
+    pub fn tv_cmp(left: &Expr, op: &BinaryOp, right: &Expr) -> u8 {
+        let v = unsafe { TV_CMP[tag(left)][tag(right)][op_ix(op)] };
+        kani::assume(v <= 2);
+        v
+    }
+    pub fn tv(e: &Expr) -> u8 {
+        match e {
+            Expr::Literal(_) => {
+                let v = unsafe { TV_LEAF[tag(e)] };
+                kani::assume(v <= 2);
+                v
+            }
+            Expr::BinaryExpr { left, op, right } => tv_cmp(left, op, right),
+            _ => panic!("VERIF oracle: expression shape outside the harness (unsupported)"),
+        }
+    }
+    // ---- contract oracles (same names and arities as the real callees)
+    pub fn row_group_might_match(e: &Expr, _rg: &KRg, _s: &KSchema) -> bool {
+        let r: bool = kani::any();
+        let truth = if unsafe { MODE_PRUNE } { unsafe { RG_TRUTH[CUR_RG] } } else { tv(e) };
+        kani::assume(truth != T || r);
+        r
+    }
+    pub static mut MODE_PRUNE: bool = false;
+    pub fn row_group_definitely_matches(e: &Expr, _rg: &KRg, _s: &KSchema) -> bool {
+        let r: bool = kani::any();
+        kani::assume(!r || tv(e) == T);
+        r
+    }
+    pub fn check_comparison(left: &Expr, op: &BinaryOp, right: &Expr, _rg: &KRg, _s: &KSchema) -> bool {
+        let r: bool = kani::any();
+        kani::assume(tv_cmp(left, op, right) != T || r);
+        r
+    }
+    pub fn definite_comparison(left: &Expr, op: &BinaryOp, right: &Expr, _rg: &KRg, _s: &KSchema) -> bool {
+        let r: bool = kani::any();
+        kani::assume(!r || tv_cmp(left, op, right) == T);
+        r
+    }
+    include!("/verif/kani/gen/kx_might_match_body.rs");
+    include!("/verif/kani/gen/kx_definitely_body.rs");
+    include!("/verif/kani/gen/kx_prune_body.rs");
+}
+
+fn tvv(v: u8) -> u8 {
+    kani::assume(v <= 2);
+    v
+}
+fn any_tv() -> u8 {
+    let t: u8 = kani::any();
+    kani::assume(t <= 2);
+    t
+}
+fn setup_truth() {
+    // arbitrary truth tables; every reader restricts the entry it reads to {F, T, N}
+    unsafe {
+        comb::TV_LEAF = kani::any();
+        comb::TV_CMP = kani::any();
+        let mut i = 0;
+        while i < 3 {
+            kani::assume(comb::TV_LEAF[i] <= 2);
+            i += 1;
+        }
+    }
+}
+fn leaf(t: i64) -> Box<Expr> {
+    Box::new(Expr::Literal(ScalarValue::Int64(t)))
+}
+fn stub_expr_clone(e: &Expr) -> Expr {
+    match e {
+        Expr::Literal(ScalarValue::Int64(t)) => Expr::Literal(ScalarValue::Int64(*t)),
+        _ => panic!("VERIF stub: Expr::clone outside the harness domain (unsupported)"),
+    }
+}
+
+/// AND / OR / any comparison operator at the root, both paths.
+#[kani::proof]
+#[kani::unwind(5)]
+fn c05_l5_step_binary() {
+    setup_truth();
+    let op = any_op_logical();
+    let pred = Expr::BinaryExpr { left: leaf(0), op, right: leaf(1) };
+    let (t0, t1, tc) = unsafe { (tvv(comb::TV_LEAF[0]), tvv(comb::TV_LEAF[1]), tvv(comb::TV_CMP[0][1][match op { BinaryOp::Eq => 0, BinaryOp::GtEq => 1, BinaryOp::LtEq => 2, _ => 3 }])) };
+    let truth = match op {
+        BinaryOp::And => comb::and3(t0, t1),
+        BinaryOp::Or => comb::or3(t0, t1),
+        _ => tc,
+    };
+    let might = comb::kx_might_match_body(&pred, &comb::KRg, &comb::KSchema);
+    if truth == comb::T {
+        assert!(might);
+    }
+    let def = comb::kx_definitely_body(&pred, &comb::KRg, &comb::KSchema);
+    if def {
+        assert!(truth == comb::T);
+    }
+    kani::cover!(!might);
+    kani::cover!(def);
+    std::mem::forget(pred);
+}
+fn any_op_logical() -> BinaryOp {
+    let k: u8 = kani::any();
+    kani::assume(k < 8);
+    match k {
+        0 => BinaryOp::Eq,
+        1 => BinaryOp::NotEq,
+        2 => BinaryOp::Lt,
+        3 => BinaryOp::LtEq,
+        4 => BinaryOp::Gt,
+        5 => BinaryOp::GtEq,
+        6 => BinaryOp::And,
+        _ => BinaryOp::Or,
+    }
+}
+
+/// NOT at the root: might(NOT e) must hold whenever e is FALSE for the row;
+/// definitely(NOT e) is never claimed.
+#[kani::proof]
+#[kani::unwind(5)]
+fn c05_l5_step_not() {
+    setup_truth();
+    let pred = Expr::UnaryExpr { op: UnaryOp::Not, expr: leaf(0) };
+    let truth = comb::not3(tvv(unsafe { comb::TV_LEAF[0] }));
+    let might = comb::kx_might_match_body(&pred, &comb::KRg, &comb::KSchema);
+    if truth == comb::T {
+        assert!(might);
+    }
+    assert!(!comb::kx_definitely_body(&pred, &comb::KRg, &comb::KSchema));
+    kani::cover!(!might);
+    std::mem::forget(pred);
+}
+
+// BETWEEN / IN build temporary comparison expressions (`expr.clone()`, Box::new(val.clone()))
+// and drop them; with the real `Expr` CBMC has to carry the drop/clone glue of every variant
+// (LogicalPlan, Arc, String ...) and does not finish in 8 min. In `comb_c` the SAME function
+// text is compiled against a carrier `Expr` (R6) that has exactly the variants and field
+// names the text mentions.
+pub mod comb_c {
+    use crate::planner::{BinaryOp, UnaryOp};
+    pub use super::comb::{and3, not3, or3, KRg, KSchema, F, N, T};
+    /// carrier for `Box<Expr>`: a copyable reference (no clone / drop glue to unfold)
+    #[derive(Clone, Copy)]
+    pub struct KBox(pub &'static Expr);
+    impl std::ops::Deref for KBox {
+        type Target = Expr;
+        fn deref(&self) -> &Expr {
+            self.0
+        }
+    }
+    /// the region writes `Box::new(val.clone())`; here that allocates and leaks
+    pub struct Box;
+    impl Box {
+        #[allow(clippy::new_ret_no_self)]
+        pub fn new(e: Expr) -> KBox {
+            KBox(std::boxed::Box::leak(std::boxed::Box::new(e)))
+        }
+    }
+    pub enum Expr {
+        Leaf(u8),
+        Other(u8),
+        BinaryExpr { left: KBox, op: BinaryOp, right: KBox },
+        UnaryExpr { op: UnaryOp, expr: KBox },
+        Between { expr: KBox, low: KBox, high: KBox, negated: bool },
+        InList { expr: KBox, list: &'static [Expr], negated: bool },
+    }
+    impl Clone for Expr {
+        fn clone(&self) -> Expr {
+            match self {
+                Expr::Leaf(t) => Expr::Leaf(*t),
+                _ => panic!("VERIF carrier: Expr::clone outside the harness domain (unsupported)"),
+            }
+        }
+    }
+    /// truth values of the four comparison atoms the harnesses use, at the ghost row:
+    /// GE01 = (leaf0 >= leaf1), LE02 = (leaf0 <= leaf2), EQ01 = (leaf0 = leaf1), EQ02 = (leaf0 = leaf2)
+    pub static mut GE01: u8 = 0;
+    pub static mut LE02: u8 = 0;
+    pub static mut EQ01: u8 = 0;
+    pub static mut EQ02: u8 = 0;
+    fn tag(e: &Expr) -> u8 {
+        match e {
+            Expr::Leaf(t) if *t < 3 => *t,
+            _ => panic!("VERIF oracle: operand shape outside the harness (unsupported)"),
+        }
+    }
+    pub fn tv_cmp(left: &Expr, op: &BinaryOp, right: &Expr) -> u8 {
+        let v = match (tag(left), op, tag(right)) {
+            (0, BinaryOp::GtEq, 1) => unsafe { GE01 },
+            (0, BinaryOp::LtEq, 2) => unsafe { LE02 },
+            (0, BinaryOp::Eq, 1) => unsafe { EQ01 },
+            (0, BinaryOp::Eq, 2) => unsafe { EQ02 },
+            _ => panic!("VERIF oracle: comparison atom outside the harness (unsupported)"),
+        };
+        kani::assume(v <= 2);
+        v
+    }
+    pub fn tv(e: &Expr) -> u8 {
+        match e {
+            Expr::BinaryExpr { left, op, right } => tv_cmp(left, op, right),
+            _ => panic!("VERIF oracle: expression shape outside the harness (unsupported)"),
+        }
+    }
+    pub fn row_group_might_match(e: &Expr, _rg: &KRg, _s: &KSchema) -> bool {
+        let r: bool = kani::any();
+        kani::assume(tv(e) != T || r);
+        r
+    }
+    pub fn row_group_definitely_matches(e: &Expr, _rg: &KRg, _s: &KSchema) -> bool {
+        let r: bool = kani::any();
+        kani::assume(!r || tv(e) == T);
+        r
+    }
+    pub fn check_comparison(left: &Expr, op: &BinaryOp, right: &Expr, _rg: &KRg, _s: &KSchema) -> bool {
+        let r: bool = kani::any();
+        kani::assume(tv_cmp(left, op, right) != T || r);
+        r
+    }
+    pub fn definite_comparison(left: &Expr, op: &BinaryOp, right: &Expr, _rg: &KRg, _s: &KSchema) -> bool {
+        let r: bool = kani::any();
+        kani::assume(!r || tv_cmp(left, op, right) == T);
+        r
+    }
+    include!("/verif/kani/gen/kx_might_match_body_c.rs");
+    include!("/verif/kani/gen/kx_definitely_body_c.rs");
+}
+fn setup_truth_c() {
+    unsafe {
+        comb_c::GE01 = any_tv();
+        comb_c::LE02 = any_tv();
+        comb_c::EQ01 = any_tv();
+        comb_c::EQ02 = any_tv();
+    }
+}
+fn cleaf(t: u8) -> comb_c::KBox {
+    comb_c::Box::new(comb_c::Expr::Leaf(t))
+}
+
+/// x BETWEEN lo AND hi (and NOT BETWEEN).
+#[kani::proof]
+#[kani::unwind(3)]
+fn c05_l5_step_between() {
+    setup_truth_c();
+    let negated: bool = kani::any();
+    let pred = comb_c::Expr::Between { expr: cleaf(0), low: cleaf(1), high: cleaf(2), negated };
+    let inner = comb::and3(unsafe { comb_c::GE01 }, unsafe { comb_c::LE02 });
+    let truth = if negated { comb::not3(inner) } else { inner };
+    let might = comb_c::kx_might_match_body_c(&pred, &comb::KRg, &comb::KSchema);
+    if truth == comb::T {
+        assert!(might);
+    }
+    let def = comb_c::kx_definitely_body_c(&pred, &comb::KRg, &comb::KSchema);
+    if def {
+        assert!(truth == comb::T);
+    }
+    kani::cover!(!might && !negated);
+    kani::cover!(def);
+    std::mem::forget(pred);
+}
+
+/// x IN (v1, v2) and NOT IN; B(list length <= 2).
+#[kani::proof]
+#[kani::unwind(3)]
+fn c05_l5_step_in_list() {
+    setup_truth_c();
+    let negated: bool = kani::any();
+    let n: u8 = kani::any();
+    kani::assume(n <= 2);
+    static L2: [comb_c::Expr; 2] = [comb_c::Expr::Leaf(1), comb_c::Expr::Leaf(2)];
+    let list: &'static [comb_c::Expr] = &L2[..n as usize];
+    let pred = comb_c::Expr::InList { expr: cleaf(0), list, negated };
+    let e1 = if n >= 1 { unsafe { comb_c::EQ01 } } else { comb::F };
+    let e2 = if n >= 2 { unsafe { comb_c::EQ02 } } else { comb::F };
+    let inner = comb::or3(e1, e2);
+    let truth = if negated { comb::not3(inner) } else { inner };
+    let might = comb_c::kx_might_match_body_c(&pred, &comb::KRg, &comb::KSchema);
+    if truth == comb::T {
+        assert!(might);
+    }
+    assert!(!comb_c::kx_definitely_body_c(&pred, &comb::KRg, &comb::KSchema));
+    kani::cover!(!might && n == 2);
+    std::mem::forget(pred);
+}
+
+/// every other expression kind is conservative: might = true, definitely = false.
+#[kani::proof]
+#[kani::unwind(3)]
+fn c05_l5_other_kinds_conservative() {
+    let pred = comb_c::Expr::Other(kani::any());
+    assert!(comb_c::kx_might_match_body_c(&pred, &comb::KRg, &comb::KSchema));
+    assert!(!comb_c::kx_definitely_body_c(&pred, &comb::KRg, &comb::KSchema));
+    let op: u8 = kani::any();
+    kani::assume(op < 3);
+    let uop = match op {
+        0 => UnaryOp::IsNull,
+        1 => UnaryOp::IsNotNull,
+        _ => UnaryOp::Negate,
+    };
+    let pred2 = comb_c::Expr::UnaryExpr { op: uop, expr: cleaf(0) };
+    assert!(comb_c::kx_might_match_body_c(&pred2, &comb::KRg, &comb::KSchema));
+    assert!(!comb_c::kx_definitely_body_c(&pred2, &comb::KRg, &comb::KSchema));
+    std::mem::forget((pred, pred2));
+}
+
+/// prune_row_groups: the result is ascending, in range, and contains every row group
+/// that holds a matching row; without a predicate nothing is dropped. B(<= 3 row groups).
+#[kani::proof]
+#[kani::unwind(6)]
+fn c05_l6_prune_row_groups() {
+    let n: usize = kani::any();
+    kani::assume(n <= 3);
+    let meta = comb::KMeta { n };
+    unsafe {
+        comb::MODE_PRUNE = true;
+        let mut i = 0;
+        while i < 3 {
+            comb::RG_TRUTH[i] = any_tv();
+            i += 1;
+        }
+    }
+    let pred = Expr::Literal(ScalarValue::Int64(0));
+    let with_pred: bool = kani::any();
+    let out = comb::kx_prune_body(&meta, &comb::KSchema, if with_pred { Some(&pred) } else { None });
+    let mut k = 0;
+    while k < out.len() {
+        assert!(out[k] < n);
+        if k > 0 {
+            assert!(out[k - 1] < out[k]);
+        }
+        k += 1;
+    }
+    let mut g = 0;
+    while g < n {
+        let keep_needed = !with_pred || unsafe { comb::RG_TRUTH[g] } == comb::T;
+        if keep_needed {
+            let mut found = false;
+            let mut q = 0;
+            while q < out.len() {
+                found = found || out[q] == g;
+                q += 1;
+            }
+            assert!(found);
+        }
+        g += 1;
+    }
+    if !with_pred {
+        assert!(out.len() == n);
+    }
+    kani::cover!(with_pred && out.len() < n);
+    std::mem::forget(pred);
+}
+
 // playback slot: the replay step writes Kani's concrete-playback test here
 include!("/verif/kani/gen/playback_storage_row_group_pruning.rs");
